@@ -290,7 +290,9 @@ def main(argv=None):
     for f, r in violations:
         extra = None
         try:
-            if open_native_kf:
+            if os.environ.get("VERIF_NO_NATIVE"):
+                extra = dict(counterexample=None, counterexample_search="not searched (VERIF_NO_NATIVE set)")
+            elif open_native_kf:
                 # the family of this property fails on its listed known finding by design: its history must not be passed off
                 # as the failing input of a different obligation
                 extra = dict(counterexample=None, counterexample_search="not searched: the scenario family of this property reproduces its listed known finding and cannot tell a new failure from it")
@@ -308,7 +310,7 @@ def main(argv=None):
     # Properties with an open, natively replayed known finding are left out: their family reproduces that finding by design.
     native_note = None
     open_native = any(k["property"] == prop and k.get("status", "open") == "open" for k in known)
-    if rc == 0 and not a.units and prop in native.FAMILIES and not open_native and (undecided or a.tier == "thorough"):
+    if rc == 0 and not a.units and prop in native.FAMILIES and not open_native and (undecided or a.tier == "thorough") and not os.environ.get("VERIF_NO_NATIVE"):
         synthetic = dict(label=None, site="scenario family run natively (%s)" % ("verifier undecided" if undecided else "thorough tier"), fn=None,
                          message="native history check", rendered="\n".join(undecided))
         runit = dict(unit="native:" + prop, engine="native", path=None, cmd="tools/vx/native.py family", fns=[])
